@@ -16,7 +16,8 @@ def prog(pid, fam, tasks, nmutex=0, atomics=(), ncv=0, nrw=0, chans=(), sems=(),
     return {"id": pid, "fam": fam, "nmutex": nmutex, "atomics": list(atomics), "ncv": ncv, "nrw": nrw,
             "chans": list(chans), "sems": [{"n": n, "fair": f} for (n, f) in sems],
             "barriers": list(barriers), "nonce": nonce,
-            "kinds": kinds or ["thread"] * len(tasks), "tasks": tasks, "maxsteps": maxsteps}
+            "kinds": kinds or ["thread"] * len(tasks), "tasks": tasks, "maxsteps": maxsteps,
+            "tls_touch": [-1, -1], "tls_yield": [0, 0]}
 
 
 class Env:
@@ -101,6 +102,17 @@ def gen_task(rng, alphabet, nops, env, state):
             if not targets:
                 continue
             code.append(op("unpark", v=rng.choice(targets)))
+        elif k in ("tls_get", "tls_set"):
+            code.append(op(k, o=rng.randrange(2), v=rng.randrange(1, 9)))
+        elif k in ("lz_fadd", "lz_load"):
+            code.append(op(k, o=rng.randrange(2), v=rng.randrange(1, 4)))
+        elif k == "sonce":
+            w = rng.randrange(env.natom) if env.natom and rng.random() < 0.6 else -1
+            code.append(op(k, o=rng.randrange(2), v=rng.randrange(1, 4), w=w))
+        elif k == "sonce_done":
+            code.append(op(k, o=rng.randrange(2)))
+        elif k in ("tid", "name", "me"):
+            code.append(op(k))
         elif k in ("barrier_wait",):
             if env.nbar == 0:
                 continue
@@ -163,6 +175,9 @@ FAMILIES = {
     "barrier": (["barrier_wait", "barrier_wait", "fadd", "load"], dict(nbar=1, natom=1)),
     "barrier_reuse": (["barrier_wait", "barrier_wait", "barrier_wait", "fadd", "load"], dict(nbar=1, natom=1)),
     "once": (["call_once", "call_once", "is_completed", "load", "store"], dict(nonce=1, natom=1)),
+    "tls": (["tls_get", "tls_set", "tls_set", "yield", "lock", "unlock", "load", "store"], dict(nmutex=1, natom=1)),
+    "statics": (["lz_fadd", "lz_fadd", "lz_load", "sonce", "sonce", "sonce_done", "load", "store"], dict(natom=1)),
+    "ident": (["tid", "name", "me", "yield", "load", "store"], dict(natom=1)),
     "sem_unfair": (["acquire", "try_acquire", "release", "release", "yield"], dict(nsem=1)),
     "sem_fair": (["acquire", "try_acquire", "release", "release", "yield"], dict(nsem=1)),
     # with state observers that are not scheduling points (trace validation only)
